@@ -212,8 +212,7 @@ partial def checkChoice (i : Nat) : M Unit := do
       else if cn.min == 1 then
         if cn.kind == .elem then
           if cn.elems.length == 0 then pure ()
-          else if cn.elems.length == 1 then chosen := true
-          else throw (.internal "NotImplementedError")
+          else chosen := true
         else checkContainer c
       else throw (.internal "NotImplementedError")
   if chosen then modN i fun n => { n with reqf := some true }
